@@ -265,8 +265,9 @@ fn check_seq(p: &Props, sv: &SeqView, info: &PlanInfo, last_only: bool, out: &mu
                                 if p.c01 {
                                     out.push(v("C01", sig, msg.clone()));
                                 }
-                                if p.c07 && involves_batch {
-                                    out.push(v("C07", sig, msg));
+                                // (inside a batch the inner systems enjoy the same isolation: an inner layout is C07's too)
+                                if p.c07 && (involves_batch || sv.depth > 0) {
+                                    out.push(v("C07", if involves_batch { sig } else { "inner-conflict-side-by-side" }, msg));
                                 }
                             }
                         }
@@ -303,22 +304,36 @@ fn check_seq(p: &Props, sv: &SeqView, info: &PlanInfo, last_only: bool, out: &mu
         sa < sb || (sa == sb && ga == gb && pa < pb)
     };
 
-    if p.c02 {
+    // (C07: inside a batch the inner systems enjoy the same ordering guarantees)
+    let c07_inner = p.c07 && sv.depth > 0;
+    if p.c02 || c07_inner {
         for id in &stage_members {
             for d in &info.nodes[*id].deps {
                 if let Some(a) = names.get(d.as_str()) {
                     if !after(*a, *id) {
-                        out.push(v("C02", "dependent-not-after-dependency", format!("system {} depends on {:?} (= {}) but is not ordered after it: {}", id, d, a, l.short())));
+                        let msg = format!("system {} depends on {:?} (= {}) but is not ordered after it: {}", id, d, a, l.short());
+                        if p.c02 {
+                            out.push(v("C02", "dependent-not-after-dependency", msg.clone()));
+                        }
+                        if c07_inner {
+                            out.push(v("C07", "inner-dependent-not-after-dependency", format!("inside a batch (depth {}): {}", sv.depth, msg)));
+                        }
                     }
                 }
             }
         }
     }
-    if p.c03 {
+    if p.c03 || c07_inner {
         for x in &stage_members {
             for y in &stage_members {
                 if info.nodes[*x].barriers_before < info.nodes[*y].barriers_before && pos[x].0 >= pos[y].0 {
-                    out.push(v("C03", "barrier-not-honoured", format!("system {} (before a barrier) is in stage {} but system {} (after it) is in stage {}: {}", x, pos[x].0, y, pos[y].0, l.short())));
+                    let msg = format!("system {} (before a barrier) is in stage {} but system {} (after it) is in stage {}: {}", x, pos[x].0, y, pos[y].0, l.short());
+                    if p.c03 {
+                        out.push(v("C03", "barrier-not-honoured", msg.clone()));
+                    }
+                    if c07_inner {
+                        out.push(v("C07", "inner-barrier-not-honoured", format!("inside a batch (depth {}): {}", sv.depth, msg)));
+                    }
                 }
             }
         }
